@@ -394,7 +394,12 @@ pub(super) fn translate_literal(l: Literal, ctx: &Context) -> Result<sql_ast::Ex
     Ok(match l {
         Literal::Null => sql_ast::Expr::Value(Value::Null.into()),
         Literal::String(s) | Literal::RawString(s) => {
-            sql_ast::Expr::Value(Value::SingleQuotedString(s).into())
+            // sqlparser leaves `''` and `\'` in the value alone when it writes the
+            // literal (it takes them for quotes that are escaped already), so a
+            // value holding `''` came out as one quote and a value holding `\'`
+            // ended the literal early. Double every quote here; sqlparser then
+            // sees only escaped quotes and writes them as they are.
+            sql_ast::Expr::Value(Value::SingleQuotedString(s.replace('\'', "''")).into())
         }
         Literal::Boolean(b) => sql_ast::Expr::Value(Value::Boolean(b).into()),
         Literal::Float(f) => sql_ast::Expr::Value(Value::Number(format!("{f:?}"), false).into()),
